@@ -38,3 +38,18 @@ package cache
 //@   ensures[C10] !fs_written(cch.filePath) || old(fs_written(cch.filePath))
 //@   ensures[C10] result == nil ==> fs_written(tmp) && fs_renames() == old(fs_renames()) + 1 && fs_rename_from() == tmp && fs_rename_to() == cch.filePath
 //@   ensures[C10] result != nil ==> fs_renames() == old(fs_renames())
+
+// ---- C18: effective annotations ---------------------------------------------------------------
+
+//@ func (*pod).GetEffectiveAnnotation
+//@   requires p != nil
+//@   let ann = p.Pod.GetAnnotations()
+//@   let kc = key + "/container." + container
+//@   let kp = key + "/pod"
+//@   ensures[C18] kc in ann ==> result0 == ann[kc] && result1
+//@   ensures[C18] !(kc in ann) && kp in ann ==> result0 == ann[kp] && result1
+//@   ensures[C18] !(kc in ann) && !(kp in ann) ==> result0 == ann[key] && result1 == (key in ann)
+
+// Annotations addressed to other containers are different map keys than the three consulted for C.
+//@ lemma[C18] OtherContainerKeysDistinct(key string, c string, c2 string): c2 != c ==>
+//@     (key + "/container." + c2 != key + "/container." + c) && (key + "/container." + c2 != key + "/pod") && (key + "/container." + c2 != key)
